@@ -48,6 +48,11 @@ func genConfigDiff(r *vk.RNG, a *app.App, sid string) app.Config {
 	cfg.Debug = r.Chance(1, 6)
 	cfg.StoreSession = r.Chance(1, 3)
 	cfg.FuncUsesStore = r.Chance(1, 4)
+	if cfg.StoreSession && r.Chance(1, 3) {
+		// a provisional session id: with the session also selected on the handle the record's file name is
+		// "@tmp-<id>.tmp-<id>", which looks like one of the store's own temporary files to a careless sweep
+		cfg.SessionId = "tmp-" + cfg.SessionId
+	}
 	return cfg
 }
 
